@@ -241,14 +241,95 @@ def _reporting_blocks(fn):
     return out
 
 
+def s_depth(F, res):
+    """S-DEPTH: a local expression is stored in the scope as a *clone* (Symbol::LocalExpr) and inlined by the lowering; the
+    identifiers inside the clone are only resolved when a later pass re-tracks the expression after it was analysed.  A
+    bounded number of such passes therefore resolves reference chains only up to that depth; beyond it the clone keeps an
+    unresolved identifier although the report is clean.  Unless acceptance is made to depend on is_resolved() (or the passes
+    run to a fix point), the analyze function with the pass loop is reported, keyed by how the pass count is determined."""
+    SYMBOL = "tx3_lang::ast::Symbol"
+    trackers = set()
+    for f in F.fns.values():
+        if f["crate"] != "tx3_lang" or is_derive(f):
+            continue
+        for bi, si, st in mir.stmts(f):
+            rv = st["rv"]
+            if rv["k"] == "agg" and rv.get("adt") == SYMBOL and rv.get("variant") == "LocalExpr" and not site_in_derive(st["exp"]):
+                trackers.add(f["path"])
+    if not trackers:
+        raise BrokenCheck("no function builds Symbol::LocalExpr: anchor changed")
+    n = 0
+    for f0 in F.fns.values():
+        if f0.get("impl_trait") != ANALYZABLE or f0.get("name") != "analyze" or is_derive(f0):
+            continue
+
+        def want(t, callee, _tr=trackers):
+            if callee["crate"] != "tx3_lang" or callee.get("impl_trait") or callee.get("trait_default") or callee["path"] in _tr:
+                return False
+            return len(callee["blocks"]) <= 200
+        _KEEP.append(want)
+        f = mir.inline_calls(F, f0, want=want, depth=2)
+        cfg = mir.CFG(f)
+        du = mir.DefUse(f)
+        loops = cfg.loops()
+        for h, body in sorted(loops.items()):
+            if not any(f["blocks"][b]["t"]["k"] == "call" and (f["blocks"][b]["t"].get("resolved") or f["blocks"][b]["t"].get("callee")) in trackers for b in body):
+                continue
+            # outermost loops only, and only pass loops: driven by an integer range / counter, not by a collection
+            if any(h2 != h and body < b2 for h2, b2 in loops.items()):
+                continue
+            own = set(body)
+            for h2, b2 in loops.items():
+                if h2 != h and b2 < body:
+                    own -= b2
+            nexts = [(b, f["blocks"][b]["t"]) for b in own if f["blocks"][b]["t"]["k"] == "call" and f["blocks"][b]["t"].get("method") in ("next", "next_back")
+                     and f["blocks"][b]["t"].get("trait") == "std::iter::Iterator"]
+            how = None
+            for b, t in nexts:
+                ty = " ".join(t.get("gargs") or [])
+                if "Range" not in ty:
+                    how = "collection"
+                    continue
+                # the Range value: its end operand
+                how = "computed"
+                for o in mir.provenance(f, du, t["args"][0], transparent_extra=("std::iter::IntoIterator::into_iter",)):
+                    if o.kind == "agg" and o.rv.get("adt", "").endswith("ops::Range") and len(o.rv["ops"]) == 2:
+                        c = mir.op_const(o.rv["ops"][1])
+                        if c is not None and "int" in c:
+                            how = "literal %d" % c["int"]
+                        else:
+                            eo = mir.provenance(f, du, o.rv["ops"][1])
+                            how = "computed (%s)" % ", ".join(sorted({x.callee.split("::")[-1] for x in eo if x.kind == "call"} or {"a variable"}))
+            if how == "collection":
+                continue
+            if how is None:
+                how = "counter / condition"
+            n += 1
+            # acceptance made to depend on resolution: is_resolved() consulted outside the loop
+            guards = [bi for bi, t in mir.calls(f) if t.get("trait") == ANALYZABLE and t.get("method") == "is_resolved" and bi not in body]
+            key = "%s|resolution depth of tracked local expressions|passes: %s" % (f0["path"], how)
+            w = where(f0, f["blocks"][h]["t"].get("line"))
+            if guards:
+                res.add([ok("S-DEPTH", key, w, "the analysis consults is_resolved() after the passes")])
+            else:
+                res.add([finding("S-DEPTH", key, w, "local expressions are re-tracked and re-analysed a bounded number of times (%s) and nothing makes acceptance depend on is_resolved(): a chain of references between locals longer than the number of passes leaves an unresolved identifier inside the stored clone, the report is clean and the lowering fails with MissingAnalyzePhase" % how)])
+    res.count("pass loops over tracked local expressions", n)
+    res.floor("pass loops over tracked local expressions", n, 1)
+
+
+_KEEP = []
+
+
 def run(ctx):
     F = ctx.F
     res = Result("C13")
     res.rule("COVER", "every failure site of the lowering is discharged structurally or covered by a (re-checked) analyzer diagnostic")
     res.rule("T1", "every reference-bearing AST field is analysed by Analyzable::analyze")
+    res.rule("S-DEPTH", "a bounded number of re-tracking passes over local expressions must be backed by an is_resolved() check: otherwise reference chains deeper than the bound are accepted but cannot be lowered")
     res.rule("FACADE", "Workspace::lower lowers only after a clean analysis and only existing transactions")
     cg = CallGraph(F)
     cover(F, res, cg)
     t1_analyze(F, res)
+    s_depth(F, res)
     facade(F, res)
     return res
